@@ -12,6 +12,7 @@ import Driver.C04Oracle
 import Driver.C08
 import Driver.C13
 import Driver.C14
+import Driver.C09
 open Ws.Driver
 
 def dispatch (op : String) (args : List String) (obs : String) : String × String :=
@@ -33,6 +34,8 @@ def dispatch (op : String) (args : List String) (obs : String) : String × Strin
   | "u8" => c07u8 args obs
   | "wr" => c06wr args obs
   | "wm" => c06wm args obs
+  | "up" => c09up args obs
+  | "hup" => c09hup args obs
   | "neg" => c14neg args obs
   | "popt" => c14popt args obs
   | "msb" => c13msb args obs
